@@ -92,7 +92,8 @@ def build(kind):
     res = {
         "R1": mk("R1", {"on_a": C20A, "on_b": C20B}),
         "R2": r2s if kind == "server" else r2c,
-        "R3": mk("R3", {"on_c": C20C}),
+        # a handler is a handler whatever its method is called: private-style name
+        "R3": mk("R3", {"_on_c": C20C}),
         # partial conflict with R1 (B) and R3 (C): conflicting method alphabetically first ...
         "R4": mk("R4", {"a_first_b": C20B, "z_last_c": C20C}),
         # ... and last
@@ -103,7 +104,7 @@ def build(kind):
         "R7": mk("R7", {"on_c": C20C, "on_a": C20A}, {"on_c": "class", "on_a": "class"}),
     }
     handlers = {
-        "R1": {"A": "R1.on_a", "B": "R1.on_b"}, "R2": {"A": "R2.on_a"}, "R3": {"C": "R3.on_c"},
+        "R1": {"A": "R1.on_a", "B": "R1.on_b"}, "R2": {"A": "R2.on_a"}, "R3": {"C": "R3._on_c"},
         "R4": {"B": "R4.a_first_b", "C": "R4.z_last_c"}, "R5": {"C": "R5.a_first_c", "A": "R5.z_last_a"},
         "R6": {"C": "R6.on_c_one", "B": "R6.on_b"},
         "R7": {"C": "R7.on_c", "A": "R7.on_a"},
